@@ -15,6 +15,10 @@ pub mod snapshot;
 pub mod symbols;
 pub mod text;
 pub mod wire;
+pub mod robust;
+pub mod procrun;
+pub mod robust_model;
+pub mod capi;
 pub mod expr;
 
 /// SplitMix64: every random choice of a run derives from one state.
